@@ -6,7 +6,8 @@
      fetch.encode_header, header_or_nil -> enc_string / enc_nstring on the encoded header value
      fetch.encode_addrs, envelope       -> address, addr_list, envelope
      client._fmt_list_response, LSUB, STATUS, SEARCH, do_fetch line assembly
-     BaseClientHandler.command tagged lines (OK / NO / BAD, timeout and exception arms)
+     BaseClientHandler.command tagged lines (NO / BAD arms: resp_text; exception arm: white
+     space collapsed, repo commit 9972da4)
 
    Which octets Python's email package extracts as a header value, which names a mailbox has
    and which text an exception carries are inputs: arbitrary byte lists, universally quantified
@@ -128,6 +129,27 @@ Definition clean_text (t : list Z) : list Z := map (fun c => if forbidden c then
 Definition tagged_line (tag status text : list Z) : list Z :=
   tag ++ [SP] ++ status ++ [SP] ++ clean_text text ++ CRLF.
 
-(* the two arms of BaseClientHandler.command that were pushed without CRLF *)
+(* the exception arm of BaseClientHandler.command: text = " ".join(str(e).split()) — runs of
+   Python whitespace (here: the code points < 256 that str.split() treats as white space)
+   become one space, leading and trailing white space goes *)
+Definition is_ws (c : Z) : bool :=
+  ((9 <=? c) && (c <=? 13)) || ((28 <=? c) && (c <=? 32)) || (c =? 133) || (c =? 160).
+
+Fixpoint collapse (nonempty pending : bool) (l : list Z) : list Z :=
+  match l with
+  | [] => []
+  | c :: t =>
+      if is_ws c then collapse nonempty true t
+      else (if nonempty && pending then [SP; c] else [c]) ++ collapse true false t
+  end.
+Definition ws_collapse (l : list Z) : list Z := collapse false false l.
+
+Definition EXC_PREFIX : list Z :=   (* "BAD Unhandled exception: " *)
+  [66; 65; 68; 32; 85; 110; 104; 97; 110; 100; 108; 101; 100; 32; 101; 120; 99; 101; 112; 116; 105; 111; 110; 58; 32].
+
+Definition exc_line (tag text : list Z) : list Z :=
+  tag ++ [SP] ++ EXC_PREFIX ++ ws_collapse text ++ CRLF.
+
+(* the two arms of BaseClientHandler.command as they were before 9972da4: no CRLF *)
 Definition tagged_line_old_nocrlf (tag status text : list Z) : list Z :=
   tag ++ [SP] ++ status ++ [SP] ++ text.
